@@ -163,6 +163,26 @@ def mixed_dtype_case(ctx: Ctx, stream: str, i: int) -> None:
     integer or wide-float axis next to a float16 one, Python numbers, NumPy arrays) and an axis may be longer than what
     a narrow float can count (2048 for float16): each coordinate must be rounded in the dtype it came in"""
     rng = ctx.rng(stream, i)
+    if i % 4 == 3:
+        # INTEGER coordinates on an axis longer than 2**24: an integer is its own nearest pixel, whatever float32 can hold
+        n = 2 ** 25 + 8
+        land = make_landscape((n,))
+        xs = [2 ** 24 + 1, 2 ** 24 + 3, n - 1, n, 5, 2 ** 25 + 1, -1, 2 ** 24 - 1]
+        form = rng.choice(['int32', 'numpy-int64', 'numpy-int32'])
+        coord = jnp.asarray(np.asarray(xs), dtype=jnp.int32) if form == 'int32' else np.asarray(xs, dtype=np.int64 if form == 'numpy-int64' else np.int32)
+        st, res = safe(land.pixel2index, coord)
+        cfg = {'pixel_shape': (n,), 'x': xs, 'x_dtype': form}
+        if st != 'ok':
+            ctx.fail(stream, i, f'pixel2index-raises:{st}', f'pixel2index raised {st} on integer coordinates: {str(res)[:150]}', cfg)
+            return
+        want = [x if 0 <= x < n else -1 for x in xs]
+        got = [int(v) for v in np.asarray(res)]
+        if got != want:
+            ctx.fail(stream, i, 'pixel2index-wrong:integer-coordinates-beyond-2**24', f'pixel2index on integer coordinates {xs} of a '
+                     f'{n}-pixel axis = {got}, expected {want}', cfg)
+        ctx.case(f'mixed:bigint:{form}', True, sample=cfg)
+        ctx.count('mixed:bigint:' + form)
+        return
     long_axis = rng.choice([2100, 4100, 4098, 2050])
     pshape = (long_axis, rng.choice([2, 3]))                       # pixel_shape (x fastest)
     if rng.random() < 0.3:
